@@ -42,7 +42,44 @@ def collect():
     return out
 
 
+SPEC_VARIANTS = [
+    # (module, cfg, what the deliberate design error is, what TLC must report)
+    ("MC_Par", "MC_Par_Full_FALSE", "workspace not cleared between passes (pinned code)", None),
+    ("MC_Par", "MC_Par_External_FALSE", "work list not cleared between passes (pinned code)", None),
+    ("MC_Build", "MC_Build_NoAction", "recall rule compares the previous infoset only", None),
+    ("MC_Build", "MC_Build_NoClash", "single / multi action tables never compared", None),
+    ("MC_NamedView", "MC_NamedView_Cells", "len() counts probability cells", None),
+    ("MC_EvalOpTiny", "MC_EvalOpTiny_NoAction", "evaluator on games accepted without the action in the recall rule", "OInvDeclarative"),
+    ("ParWorkers", "MC_ParWorkers_NoMutex", "average-strategy update without the mutex", "NoLostStrategyUpdate"),
+    ("ParWorkers", "MC_ParWorkers_Scratch", "utilities parked in a per-infoset scratch cell", "ParEqualsSeq"),
+]
+
+
+def spec_variants():
+    """(b) of DESIGN 3.7: every specification variant with a deliberate design error must be refuted by TLC"""
+    sys.path.insert(0, os.path.join(ROOT, "lib"))
+    from vlib import tlc
+    bad = 0
+    out = {}
+    for module, cfg, what, want in SPEC_VARIANTS:
+        env = {"SLICE": 0, "OF": 8, "MAXDEN": 2}
+        try:
+            res = tlc(module, cfg=cfg, env=env, timeout=3000, allow_violation=True, workers=8)
+            ok = res.violated is not None and (want is None or res.violated == want)
+            out[cfg] = {"design_error": what, "tlc_reports": res.violated, "refuted": ok, "states": res.distinct}
+            print("SPEC-VARIANT %s (%s): %s %s" % (cfg, what, "REFUTED by" if ok else "NOT refuted:", res.violated))
+        except Exception as e:  # tool error
+            ok = False
+            out[cfg] = {"design_error": what, "error": str(e)[:300]}
+            print("SPEC-VARIANT %s: tool error %s" % (cfg, str(e)[:300]))
+        bad += 0 if ok else 1
+    json.dump(out, open(os.path.join(ROOT, "mutants", "SPEC_VARIANTS.json"), "w"), indent=1, sort_keys=True)
+    return 1 if bad else 0
+
+
 def main(argv):
+    if "--spec" in argv:
+        return spec_variants()
     baseline = "--baseline" in argv
     tier = "thorough" if "--thorough" in argv else "quick"
     want = [a for a in argv if not a.startswith("--")]
